@@ -31,7 +31,7 @@ ASSUMPTIONS = [
 PROBES = ["dirruns", "inputs_ge_3", "cross_file_var_ref", "stale_output_present", "repeat_run_checked", "enum_runs",
           "fault:non-utf8", "fault:empty", "fault:dir-named-css", "fault:dangling-link", "fault:unserialisable",
           "fault:eacces", "fault:eio", "fault:late-unserialisable", "fault:out-is-dir", "fault:eacces-out",
-          "fault_first", "fault_middle", "fault_last", "cm_named_input_present", "late_fault_defines_props_others_reference", "symlinked_stylesheet_input",
+          "fault_first", "fault_middle", "fault_last", "cm_named_input_present", "late_fault_defines_props_others_reference", "symlinked_stylesheet_input", "duplicate_content_files",
           "outputs_compared"]
 
 FAULT_KINDS = ("non-utf8", "empty", "dir-named-css", "dangling-link", "unserialisable", "eacces", "eio",
@@ -134,6 +134,13 @@ def generate(rseed, tier, idx):
                     {"p": "color", "v": v, "imp": ""}] + ([{"p": "background-color", "v": "var(--x-shared)", "imp": ""}] if g.random() < 0.2 else [])})
                 tree[n]["text"] = gen.render(tree[n]["ast"])
                 tree[n]["xref"] = True
+    # byte-identical copies of a stylesheet elsewhere in the tree (vendored copy, dist/ mirror)
+    if g.random() < 0.3:
+        src = g.choice(sorted(tree))
+        for _ in range(g.randint(1, 2)):
+            dst = g.choice(("vendor/", "dist/", "sub/", "")) + g.choice(("copy.css", "theme.css", src.rsplit("/", 1)[-1]))
+            if dst not in tree:
+                tree[dst] = dict(tree[src], duplicate_of=src)
     # bystanders and _cm-named inputs
     if g.random() < 0.5:
         tree[g.choice(_DIRS) + "theme_cm.css"] = {"k": "css", "text": ".t{color:#777}", "bystander": True}
@@ -444,6 +451,8 @@ def execute(trace):
                             bump("fault_middle")
                 if trace["tree"].get(rel, {}).get("xref"):
                     bump("cross_file_var_ref")
+                if trace["tree"].get(rel, {}).get("duplicate_of"):
+                    bump("duplicate_content_files")
                 if before.get(_out_of(rel)) is not None:
                     bump("stale_output_present")
                 bump("outputs_compared")
